@@ -162,7 +162,7 @@ class Check:
                 # harnesses over an arbitrary-behaviour stub cannot be replayed verbatim: they name a native confirmation
                 # entry per counterexample class (real libz, real SQLite) instead
                 nentry = (r.job.get('native_entry_for') or {}).get(b['kind'], r.entry)
-                rc, out, err = driver.run_native(exe, nentry, path, {k: v for k, v in r.params.items() if isinstance(v, int)})
+                rc, out, err = driver.run_native(exe, nentry, path, {k: v for k, v in r.params.items() if isinstance(v, int)}, assert_filter=r.job.get('assert_filter'))
                 rep, desc = driver.classify_native(rc, out, err)
             except Exception as e:
                 rep, desc = False, 'native replay failed to build/run: %r' % (e,)
